@@ -12,12 +12,14 @@ import (
 	"verif/sim/core"
 	"verif/sim/props/c04"
 	"verif/sim/props/c05"
+	"verif/sim/props/c13"
 )
 
 func props() map[string]core.Prop {
 	return map[string]core.Prop{
 		"C04": c04.Prop{},
 		"C05": c05.Prop{},
+		"C13": c13.Prop{},
 	}
 }
 
